@@ -398,6 +398,18 @@ func runCasePre(v viewKind, op treefs.Op, sub string, prelude string) *verdict {
 		case "mkdir-remove":
 			fsx.Exec(view, treefs.Op{Kind: "MkdirAll", P: "pre/dir"})
 			fsx.Exec(view, treefs.Op{Kind: "RemoveAll", P: "pre"})
+		case "copies-out":
+			// the parent copied files and the whole view directory OUT of the view earlier (native copy
+			// of the store): the copies live outside the root and must not follow later writes
+			st := e.mem
+			if v.Disk {
+				st = e.disk
+			}
+			if st != nil {
+				fsx.Exec(st, treefs.Op{Kind: "CopyFile", P: "v/n/n", Q: "outdir/copy-of-vnn"})
+				fsx.Exec(st, treefs.Op{Kind: "CopyFile", P: "v/x", Q: "outdir/copy-of-vx"})
+				fsx.Exec(st, treefs.Op{Kind: "CopyDirectory", P: "v", Q: "vcopy"})
+			}
 		case "outside-sweep":
 			// every read-type operation on every node of the store through the object the view was
 			// derived from, and through a sibling view: state shared between views of one tree
@@ -620,12 +632,15 @@ func run(c *fw.Ctx) {
 			}
 			// the Filespace method itself with the path as argument, followed by a write and a read
 			cases = append(cases, cs{treefs.Op{Kind: "WriteFile", P: "evil", Data: "EVIL-sub"}, p}, cs{treefs.Op{Kind: "ReadDir", P: "."}, p}, cs{treefs.Op{Kind: "RemoveAll", P: "n"}, p})
-			preludes := []string{"", "outside-sweep"}
+			preludes := []string{"", "outside-sweep", "copies-out"}
 			if esc := pathClass(p); esc != "stays-inside" {
-				preludes = []string{"", "outside-sweep", "write", "list", "mkdir-remove"}
+				preludes = []string{"", "outside-sweep", "copies-out", "write", "list", "mkdir-remove"}
 			}
 			for _, k := range cases {
 				for _, pre := range preludes {
+					if pre == "copies-out" && k.op.Kind != "Writer" && k.op.Kind != "WriteFile" && !strings.HasPrefix(k.op.Kind, "Copy") {
+						continue // aliasing between a file and its earlier copy only shows through writes
+					}
 					c.R.Evaluations++
 					vd := runCasePre(v, k.op, k.sub, pre)
 					if _, esc := treefs.Norm(p); esc {
@@ -697,7 +712,7 @@ func replay(w json.RawMessage) (*fw.Violation, error) {
 
 func init() {
 	fw.Register(&fw.Check{ID: "C03", Level: "exploration",
-		Rule: "all path strings of <=3 (quick) / <=4 (thorough) segments over {n, '.', '..', ''} with and without leading '/' (climbing paths also with backslash as separator, all and first only), x all 16 operations (both arguments of the copy operations, and the path used as Filespace() argument followed by write/list/remove) x 24 view kinds (memory, disk, encrypted incl. stores written through the encryption, read-only, sub-path, cache-backed; depth 1 and 2), each on a fresh store with canaries outside the view root, every case additionally after an 'outside sweep' (all read-type operations on every store node through the object the view was derived from and through a sibling view), climbing paths additionally after a harmless prelude (write / list / mkdir+remove) through the same view object; plus sibling views: parent views at depth 0..7 (thorough 12; step by step and with one joined path) x 5 view implementations, two children and a grandchild obtained from one parent object in 3 orders x 5 operations; distinct = (view, op, path) cases, non-trivial = all (every case touches a populated store)",
+		Rule: "all path strings of <=3 (quick) / <=4 (thorough) segments over {n, '.', '..', ''} with and without leading '/' (climbing paths also with backslash as separator, all and first only), x all 16 operations (both arguments of the copy operations, and the path used as Filespace() argument followed by write/list/remove) x 24 view kinds (memory, disk, encrypted incl. stores written through the encryption, read-only, sub-path, cache-backed; depth 1 and 2), each on a fresh store with canaries outside the view root, every case additionally after an 'outside sweep' and (writes, copies) after the parent has copied files and the view directory out of the view, (all read-type operations on every store node through the object the view was derived from and through a sibling view), climbing paths additionally after a harmless prelude (write / list / mkdir+remove) through the same view object; plus sibling views: parent views at depth 0..7 (thorough 12; step by step and with one joined path) x 5 view implementations, two children and a grandchild obtained from one parent object in 3 orders x 5 operations; distinct = (view, op, path) cases, non-trivial = all (every case touches a populated store)",
 		Run:  run, Replay: replay,
 		Assumptions: []string{"segment bound as stated; the 'randomly beyond the bound' part of the quantifier is not claimed", "one store shape; the view root itself counts as inside", "a result is a leak when it returns content/listing/stat of a node outside the root (canary contents and names are unique)"}})
 }
